@@ -131,6 +131,12 @@ impl Property for GcUnit {
                 return o;
             }
         }
+        // no resurrection: a current read of every key returns what it returned before, or nothing
+        let after: Vec<Entry> = entries.iter().filter(|e| retained.contains(&(e.0.clone(), e.1))).cloned().collect();
+        if let Some(msg) = gcmodel::resurrection(&entries, &after) {
+            o.fail("gc-unit:resurrected", format!("policy `{}` (now={}): {msg}; input {:?} retained {:?}", c.policy, c.now_micros, entries.iter().map(|e| (String::from_utf8_lossy(&e.0).to_string(), e.1, e.2.is_some())).collect::<Vec<_>>(), retained.iter().map(|r| (String::from_utf8_lossy(&r.0).to_string(), r.1)).collect::<Vec<_>>()));
+            return o;
+        }
         if retained.len() < input.len() {
             o.label("dropped-something");
         }
